@@ -3,6 +3,30 @@ From Coq Require Import List NArith Bool.
 Import ListNotations.
 From Mos Require Import model.Format Gen.FmtRules model.FormatTokens spec.FormatSpec proofs.FormatProofs proofs.FormatIdem.
 
+(* Blank-line squeezing, for ALL chunk lists and options: join_chunks never emits two adjacent empty lines -- the
+   normal form a second run starts from (it finds at most single empty lines and keeps each of them). *)
+Theorem C13_blank_lines_squeezed : forall cs o a b, join_lines cs o <> a ++ [] :: [] :: b.
+Proof. exact blank_lines_squeezed. Qed.
+Print Assumptions C13_blank_lines_squeezed.
+
+(* Line assembly is a fixed point of re-chunking: take the lines join_chunks emitted, describe each as the chunks that
+   went into it followed by a newline chunk (spec.FormatSpec.rechunk: what a second run sees of the first run's layout),
+   join again: the same text.  PARTIAL: proved by exhaustive evaluation for every chunk list of length <= 4 over the 10
+   chunk shapes of sweep_alphabet (short / long label, code, blank, newline with and without pending space, block and
+   line comment, two indents) x the 8 margin / alignment settings of sweep_options -- not by induction over all lists;
+   and the re-parse itself (that the parser reads the same tokens and comments back) is outside the model (oracle). *)
+Theorem C13_join_fixed_partial : forall cs o,
+  In o sweep_options -> In cs (lists_of 4 sweep_alphabet) -> stable_chunks cs = true ->
+  join_chunks (rechunk cs o) o = join_chunks cs o.
+Proof. exact join_fixed_bounded. Qed.
+Print Assumptions C13_join_fixed_partial.
+
+(* the guard is exact in kind: a typed chunk that contains its own line break is not reproduced from its lines *)
+Theorem C13_join_fixed_guard_needed_refuted : exists cs o,
+  stable_chunks cs = false /\ join_chunks (rechunk cs o) o <> join_chunks cs o.
+Proof. exact join_fixed_needs_stable. Qed.
+Print Assumptions C13_join_fixed_guard_needed_refuted.
+
 (* F-C13a, on the model of join_chunks: a comment that spans two lines is laid out with its continuation line moved to
    the code column; a second run starts from that text (c2 = the comment as it stands in the output of the first run)
    and moves the continuation line again -- the output of the formatter is not a fixed point. *)
